@@ -1,6 +1,7 @@
 package main
 
 import (
+	"sync"
 	"flag"
 	"fmt"
 	"os"
@@ -44,7 +45,38 @@ func cmdFn(args []string) {
 		names = v.spec.Order
 	}
 	bad := 0
-	for _, n := range names {
+	// generation in parallel (one function per worker), then one discharge stage over everything
+	type gen struct {
+		obls  []*Obligation
+		notes []string
+		err   error
+	}
+	gens := make([]gen, len(names))
+	{
+		var wg sync.WaitGroup
+		sem := make(chan struct{}, 1) // generation is sequential: the verifier caches are not synchronised
+		for i, n := range names {
+			c := v.spec.Contracts[n]
+			if c == nil || c.Kind != "func" || c.Trusted != "" {
+				continue
+			}
+			wg.Add(1)
+			go func(i int, c *Contract) {
+				defer wg.Done()
+				sem <- struct{}{}
+				defer func() { <-sem }()
+				o, nt, e := v.verifyFunction(c)
+				gens[i] = gen{o, nt, e}
+			}(i, c)
+		}
+		wg.Wait()
+		var all []*Obligation
+		for _, g := range gens {
+			all = append(all, g.obls...)
+		}
+		v.dischargeAll(all, *out, *timeout, false, 16)
+	}
+	for i, n := range names {
 		c := v.spec.Contracts[n]
 		if c == nil {
 			fmt.Println("no contract for", n)
@@ -53,12 +85,11 @@ func cmdFn(args []string) {
 		if c.Kind != "func" || c.Trusted != "" {
 			continue
 		}
-		obls, notes, err := v.verifyFunction(c)
+		obls, notes, err := gens[i].obls, gens[i].notes, gens[i].err
 		if err != nil {
 			fmt.Println("ERROR", err)
 			bad++
 		}
-		v.dischargeAll(obls, *out, *timeout, false, 16)
 		sort.SliceStable(obls, func(i, j int) bool { return obls[i].Name < obls[j].Name })
 		nok := 0
 		retCovers, retDead := 0, 0
@@ -69,6 +100,10 @@ func cmdFn(args []string) {
 					retDead++
 				}
 			}
+		}
+		for _, d := range v.deadReturns(obls) {
+			fmt.Printf("  FAIL %s: %s\n", d.Name, d.Output)
+			bad++
 		}
 		if retCovers > 0 && retDead == retCovers {
 			fmt.Printf("  FAIL %s: no return is reachable under the contract (vacuous)\n", n)
